@@ -25,7 +25,12 @@ DOMAINS = {
     "collapse": {"timeout": 3000},
 }
 
-SOLVER_RULE = ("solver runs with a recording provider: (a) tiny scope — 2 packages x 2 versions, every slot one of 15 options (absent, "
+SOLVER_RULE = ("solver runs with a recording provider: (0) a corpus of minimised registries kept from findings and seeded changes, run first "
+               "under every static priority order and the count-based strategies (one of them with a range-dependent priority table); "
+               "(0') deep / family scope — 5-7 packages, the versions of a package mostly share their dependencies and the bottoms cannot be "
+               "satisfied, some packages pin themselves: several conflicts per run, learned incompatibilities reused (shared nodes); "
+               "(0'') wide scope — a conflict-rich core plus 33-38 filler packages decided first: back-jumps over 35 decision levels; "
+               "(a) tiny scope — 2 packages x 2 versions, every slot one of 15 options (absent, "
                "unavailable, no deps, one dep on a target in {0,1,unknown 2} with set in {empty, full, {1}, {2}}; so self-dependencies, cycles, "
                "unknown packages occur), sampled registries (quick) / all 50625 (thorough), both roots, ALL scripts of the family "
                "(any admissible version at each choose_version, priority in {0,1} at each prioritize) by stateless DFS up to a cap; "
@@ -37,7 +42,7 @@ SOLVER_RULE = ("solver runs with a recording provider: (a) tiny scope — 2 pack
 SOLVER_NOTE = ("Trusted: Coq kernel, extraction, harness/driver, the oracles of ocaml/d_solver.ml. Modelled, not verified: std (partition_point, "
                "sort), indexmap (insertion order, swap_indices, retain), priority_queue (pop returns a maximum; ties are taken from the recorded "
                "trace), FxHashMap iteration order of dependency maps (recorded by the harness from the very map it returns). The model is "
-               "coq/Model/Solver.v; it replays the provider trace and must reproduce every call and the result. Termination is not proved "
+               "coq/Model/Solver.v; it replays the provider trace and must reproduce every call and the result. Termination is proved in the model (C05); "
                "(every theorem is for arbitrary fuel; the harness uses a call budget).")
 
 def solver_prop(props, level, technique, text, note_extra="", domains=("solver",), extra=None):
